@@ -80,7 +80,10 @@ structure SeriesObs where
   tags : Tags
   read : Option RowRead
 
-def pointsOK (start stop : Int) (r : Row) (o : SeriesObs) : Bool :=
+/-- `exempt r`: the points of row `r` are not judged (always `fun _ => false` in the
+    statement; the driver uses it only to attribute a failure to a known finding) -/
+def pointsOK (exempt : Row → Bool) (start stop : Int) (r : Row) (o : SeriesObs) : Bool :=
+  if exempt r then true else
   match expected start stop r with
   | none => true
   | some pts =>
@@ -89,9 +92,12 @@ def pointsOK (start stop : Int) (r : Row) (o : SeriesObs) : Bool :=
     | some rr => decide (rr.arrays.flatten = pts) && !rr.typeErr
 
 /-- filter read: the rows, in order, each once, with their points -/
-def holdsFilter (start stop : Int) (rows : List Row) (obs : List SeriesObs) : Bool :=
+def holdsFilterX (exempt : Row → Bool) (start stop : Int) (rows : List Row) (obs : List SeriesObs) : Bool :=
   obs.length == rows.length &&
-    (rows.zip obs).all fun (r, o) => decide (o.tags = r.tags) && pointsOK start stop r o
+    (rows.zip obs).all fun (r, o) => decide (o.tags = r.tags) && pointsOK exempt start stop r o
+
+def holdsFilter (start stop : Int) (rows : List Row) (obs : List SeriesObs) : Bool :=
+  holdsFilterX (fun _ => false) start stop rows obs
 
 /-- value of a group key for a series: missing or empty = nil -/
 def keyVal (tags : Tags) (k : String) : Option String :=
@@ -125,24 +131,24 @@ def ascending (nilLo : Bool) : List (List (Option String)) → Bool
   | a :: b :: rest => tupleLt nilLo a b && ascending nilLo (b :: rest)
   | _ => true
 
-def hasData (start stop : Int) (r : Row) : Option Bool :=
-  (expected start stop r).map (!·.isEmpty)
+def hasData (exempt : Row → Bool) (start stop : Int) (r : Row) : Option Bool :=
+  if exempt r then none else (expected start stop r).map (!·.isEmpty)
 
 /-- group read -/
-def holdsGroup (q : GroupReq) (rows : List Row) (gs : List GroupObs) : Bool :=
+def holdsGroupX (exempt : Row → Bool) (q : GroupReq) (rows : List Row) (gs : List GroupObs) : Bool :=
   let all := gs.flatMap (·.series)
   -- nothing invented, nothing twice
   let noInvent := all.all fun o => rows.any (·.tags == o.tags)
   let noDup := all.all fun o => (all.filter (·.tags == o.tags)).length == 1
   -- every series with data is there (in exactly one group, by noDup)
   let complete := rows.all fun r =>
-    match hasData q.start q.stop r with
+    match hasData exempt q.start q.stop r with
     | some true => all.any (·.tags == r.tags)
     | _ => true
   -- points
   let points := all.all fun o =>
     match rows.find? (·.tags == o.tags) with
-    | some r => pointsOK q.start q.stop r o
+    | some r => pointsOK exempt q.start q.stop r o
     | none => false
   let shape :=
     if q.by_ then
@@ -151,5 +157,8 @@ def holdsGroup (q : GroupReq) (rows : List Row) (gs : List GroupObs) : Bool :=
       ascending q.nilLo (gs.map fun g => g.vals.map norm)
     else gs.length ≤ 1
   noInvent && noDup && complete && points && shape
+
+def holdsGroup (q : GroupReq) (rows : List Row) (gs : List GroupObs) : Bool :=
+  holdsGroupX (fun _ => false) q rows gs
 
 end Influx.Spec.C21
